@@ -33,6 +33,23 @@ func flattenPath(err error) (elems []string, root error) {
 	return elems, err
 }
 
+// wrapperPkgs lists the packages of the wrapErrorsUsing wrappers around err, outermost first.
+func wrapperPkgs(err error) (pkgs []string) {
+	for err != nil {
+		var pc PathCarrier
+		if !errors.As(err, &pc) {
+			break
+		}
+		if wp, ok := pc.(interface{ VerifPkg() string }); ok {
+			pkgs = append(pkgs, wp.VerifPkg())
+		} else {
+			pkgs = append(pkgs, "?")
+		}
+		_, err = pc.VerifPath()
+	}
+	return pkgs
+}
+
 var (
 	reField = regexp.MustCompile(`^error setting field ([A-Za-z_0-9]+): `)
 	reIndex = regexp.MustCompile(`^error setting index (-?[0-9]+): `)
@@ -69,11 +86,31 @@ func (in *Interp) checkErr(ps *PlanSet, src reflect.Value, err error, modes map[
 		if _, direct := err.(Sentinel); !direct && isSentinel {
 			return "no error wrapping is in effect but the returned error is not the custom function's error itself: " + err.Error()
 		}
-	case modes["wrapusing"]:
+	case modes["wrapusing"], modes["wrapusing-partial"]:
 		elems, _ := flattenPath(err)
-		ok, why := in.matchPath(ps.Root, src, elems, true, "", 0)
+		in.LooseLast = modes["wrapusing-partial"] // only the method's own elements are wrapped
+		ok, why := in.matchPath(ps.Root, src, elems, modes["wrapusing"], "", 0)
+		in.LooseLast = false
 		if !ok {
 			return fmt.Sprintf("reported location %v does not lead to a failing element (%s)", elems, why)
+		}
+		// which wrapper package produced the outermost / innermost wrapper, and how many wrappers there are
+		pkgs := wrapperPkgs(err)
+		for m := range modes {
+			switch {
+			case strings.HasPrefix(m, "wrappkg:"):
+				if want := strings.TrimPrefix(m, "wrappkg:"); len(pkgs) == 0 || pkgs[0] != want {
+					return fmt.Sprintf("outermost error wrapper comes from %v, the wrapErrorsUsing package in effect for the method is %s", pkgs, want)
+				}
+			case strings.HasPrefix(m, "wrappkg-inner:"):
+				if want := strings.TrimPrefix(m, "wrappkg-inner:"); len(pkgs) == 0 || pkgs[len(pkgs)-1] != want {
+					return fmt.Sprintf("innermost error wrapper comes from %v, the wrapErrorsUsing package in effect for generated methods is %s", pkgs, want)
+				}
+			case strings.HasPrefix(m, "wrapcount:"):
+				if want, _ := strconv.Atoi(strings.TrimPrefix(m, "wrapcount:")); len(pkgs) != want {
+					return fmt.Sprintf("error is wrapped %d times (%v), expected %d", len(pkgs), pkgs, want)
+				}
+			}
 		}
 	case modes["wraperrors"]:
 		elems := parseWrapErrors(err.Error())
@@ -113,7 +150,7 @@ func (in *Interp) matchPath(p *Plan, v reflect.Value, rep []string, exact bool, 
 		if len(rep) != 0 {
 			return false, "location continues below the failing call: " + strings.Join(rep, ",")
 		}
-		if !exact && last != "" && !strings.HasPrefix(last, "K:") && !strings.HasPrefix(last, "+") {
+		if !exact && !in.LooseLast && last != "" && !strings.HasPrefix(last, "K:") && !strings.HasPrefix(last, "+") {
 			return false, "innermost element " + last + " not reported"
 		}
 		// does it fail on this value?
@@ -139,6 +176,37 @@ func (in *Interp) matchPath(p *Plan, v reflect.Value, rep []string, exact bool, 
 			act = p.Enum.Unknown
 		}
 		return act == "@error", "enum element not an @error"
+	case "default":
+		// the constructor runs first: when it fails, this position is the failing element
+		if fn := in.Funcs[p.K.Fn]; fn.IsValid() && p.K.Fallible {
+			failed := false
+			func() {
+				defer func() { recover() }()
+				_, err := in.call(p.K, v, fn.Type().Out(0))
+				failed = err != nil
+			}()
+			if failed {
+				if len(rep) != 0 {
+					return false, "location continues below the failing constructor: " + strings.Join(rep, ",")
+				}
+				if !exact && !in.LooseLast && last != "" && !strings.HasPrefix(last, "K:") && !strings.HasPrefix(last, "+") {
+					return false, "innermost element " + last + " not reported"
+				}
+				return true, ""
+			}
+		}
+		switch p.Ref {
+		case "ptr-update", "srcptr-update":
+			if v.IsNil() {
+				return false, "nil"
+			}
+			return in.matchPath(p.In, v.Elem(), rep, exact, last, d+1)
+		case "nil-default":
+			if v.Kind() == reflect.Ptr && v.IsNil() {
+				return false, "nil"
+			}
+		}
+		return in.matchPath(p.In, v, rep, exact, last, d+1)
 	case "ptr", "ptr2val":
 		if v.IsNil() {
 			return false, "nil"
